@@ -5,6 +5,7 @@
 -/
 import CnvVerif.Driver.Haar
 import CnvVerif.Model.HaarExt
+import CnvVerif.Driver.HaarExt5Fdr
 import CnvVerif.Generated.ExprsHaar
 import CnvVerif.Generated.HmmConsts
 open Lean
@@ -92,6 +93,6 @@ def handleHaarExt (op : String) (inp : Json) (impl : Option Json) : R (Option Js
     pure (some (obj [("out", obj [("start", ratsJ Generated.HMM_START_3), ("trans", matJ Generated.HMM_TRANS_3),
                                   ("args", strsJ Generated.HMM_FROM_MATRIX_ARGS)]),
                      ("observed_shape", shape), ("spec", spec)]))
-  | _ => pure none
+  | _ => HaarFdr.handleHaarFdr op inp impl   -- op `fdr_cdf` (Driver/HaarExt5Fdr.lean)
 
 end CnvVerif.Drv.HaarExt
